@@ -94,14 +94,27 @@ def property_config(pid, tasks):
     P["C01"] = dict(decisive=select(tasks, ("RT.",), props=["C01"]), chain=select(tasks, ("W.", "R3.")),
                     harness=dict(checks=["roundtrip", "history"], kinds=["RT.write", "RT.decode", "RT.content", "RT.reencode"]))
     P["C02"] = dict(decisive=select(tasks, ("SW.", "RT."), props=["C02"]), chain=[],
-                    harness=dict(checks=["roundtrip", "history"], kinds=["RT.size", "RT.consumed"], capture=["CAP.consumed", "CAP.size", "CAP.decode"]))
+                    harness=dict(checks=["roundtrip", "history", "size_nonfinite"], kinds=["RT.size", "RT.consumed"], capture=["CAP.consumed", "CAP.size", "CAP.decode"]))
     P["C05"] = dict(decisive=select(tasks, ("SEG.",) + tuple(f"RT.{t}" for t in TRACKS) + tuple(f"W.{t}" for t in TRACKS) + tuple(f"B.{t}" for t in TRACKS)),
-                    chain=[], harness=dict(checks=["gaps", "history"], kinds=["C05"], layouts=list(TRACKS)))
+                    chain=[], harness=dict(checks=["gaps", "gaps_block", "history"], kinds=["C05"], layouts=list(TRACKS)))
     P["C06"] = dict(decisive=select(tasks, ("W.", "B."), props=["C06"]), chain=[],
                     harness=dict(checks=["write", "build", "history"], kinds=["W", "B"], modes=("zero",), capture=["CAP.layout", "CAP.decode"]))
     P["C12"] = dict(decisive=select(tasks, ("B.", "R3.", "C13.BTSString.read", "C13.BTSString.bread") + tuple(f"TDF.tdfTypes.{k}.pad" for k in ("i32",))),
                     chain=[], harness=dict(checks=["build"], kinds=["B", "R3", "S"], capture=["CAP.dontcare", "CAP.reencode", "CAP.decode"]))
     P["C13"] = dict(decisive=select(tasks, ("C13.",)), chain=[], harness=dict(btsstring=True))
+    # The codec proofs replace some callees by contracts (DESIGN 2, modularity): `_segments`, BTSDate, and the add-one-item
+    # methods the decoders call.  The tasks that verify those contracts belong to the proof -- but only the clauses the
+    # decoders rely on (a valid item / an explicit free channel is accepted and appended, everything else is kept), not the
+    # clauses that only C15 / C16 state (refusals, automatic channels, uniqueness).
+    APPEND = ["length_grows_by_one", "new_item_is_last", "old_items_kept", "refuses_only_invalid_items", "block_frame_count_unchanged"]
+    PAIR = ["refused_only_if_explicit_channel_taken", "channel_list_is_a_list", "channel_list_length", "item_list_length", "surviving_channels_unchanged",
+            "new_channel_at_its_position", "surviving_items_keep_their_channel_position"]
+    callee = {n: None for n in select(tasks, ("SEG.", "DATE."))}
+    callee.update({n: APPEND for n in select(tasks, ("C16.Data3D.add_track", "C16.ForceTorque3D.add_track", "C16.EMG.addSignal"))})
+    callee.update({n: PAIR for n in select(tasks, ("C15.EMG.add[explicit]", "C15.PlatformsCalibration.add[explicit]", "C15.PlatformsData.add[explicit]"))})
+    for pid_ in ("C01", "C02", "C06", "C12"):
+        P[pid_]["decisive"] = list(dict.fromkeys(P[pid_]["decisive"] + list(callee)))
+        P[pid_]["only"] = {n: v for n, v in callee.items() if v is not None}
     for modname in ("tasks_obj", "tasks_container", "tasks_access"):
         try:
             mod = __import__("pyvc." + modname, fromlist=["property_config"])
@@ -125,6 +138,11 @@ ASSUMPTIONS = [
     "maximal-run decomposition of a presence mask is unique, hence _segments is a function of the data (validated exhaustively for n <= 12)",
     "+-inf in the leading component of a track is outside valid_T (masked_invalid treats it as missing); header floats are representable at on-disk width",
     "single thread, no re-entrancy; MemoryError / OSError from the device are not modelled",
+    "how an array is stored (byte order, strides, Fortran order, a wider float holding float32 values) is not modelled: arrays are their values (the bounded suites generate those storage variants)",
+    "state a class keeps besides the attributes of its layout view (caches, memo tables) is outside the specification-built instances: code reading it is out of reach, the history clauses of the bounded suites judge it",
+    "Data2D: camera channels below 2**15 (written through the signed, read through the unsigned 16-bit codec); a cell is None or holds 1..65535 points",
+    "counting: the number of non-unused table slots is the live count under the invariant; on an arbitrary table (CT.hole.*) it satisfies 0 <= c <= N and the pigeonhole fact (first c slots live => no later slot live) -- assumed, cardinality",
+    "container proofs start from ordered files (live entries first, unused offsets at or after the end of live data); block dates and format codes of the NEW block are unconstrained (an un-encodable entry must be refused before anything is touched)",
     "the VC generator itself (pyvc) -- mitigated by canaries, cover checks and the seeded-break catalogue",
 ]
 TRUSTED = ["z3 4.x (z3-solver 5.1 wheel)", "cvc5 1.0.3 (fallback for z3 unknowns)", "pyvc symbolic executor + stream normaliser",
@@ -159,11 +177,25 @@ def write_replay(pid, name, payload):
     return os.path.relpath(path, VERIF)
 
 
+def _limit_memory():
+    """the code under test decodes hostile bytes in some suites: an absurd count must end in MemoryError there (a failure of
+    that case), not in the kernel killing the check"""
+    try:
+        import resource
+        lim = 6 << 30
+        soft, hard = resource.getrlimit(resource.RLIMIT_AS)
+        if soft == resource.RLIM_INFINITY or soft > lim:
+            resource.setrlimit(resource.RLIMIT_AS, (lim, hard))
+    except Exception:
+        pass
+
+
 def run_harness(pid, cfg, seed, tier, src, layouts=None, deep=False):
     """bounded suites on the real code; returns (standins, failures)"""
     sys.path.insert(0, src)
     import warnings
     warnings.simplefilter("ignore")
+    _limit_memory()
     from harness import suites, capture
     h = cfg.get("harness", {})
     standins, fails = [], []
@@ -195,6 +227,7 @@ def replay_file(pid, path, src):
     sys.path.insert(0, src)
     import warnings
     warnings.simplefilter("ignore")
+    _limit_memory()
     data = json.load(open(os.path.join(VERIF, path) if not os.path.isabs(path) else path))
     rec = data.get("failing_input", {}).get("recipe")
     if not rec:
@@ -206,8 +239,8 @@ def replay_file(pid, path, src):
         fl = codec_checks.check_btsstring(rec["size"], rec["string"])
     elif rec["kind"] == "capture":
         fl = capture.check_capture(os.path.dirname(src), 0)[1]
-    elif rec["kind"] in ("block", "item", "track", "trackblock"):
-        fl = suites.run_recipe(rec, data["failing_input"].get("checks", ["write", "build", "roundtrip", "gaps", "history"]))
+    elif rec["kind"] in ("block", "item", "track", "trackblock", "large"):
+        fl = suites.run_recipe(rec, data["failing_input"].get("checks", ["write", "build", "roundtrip", "gaps", "gaps_block", "history", "size_nonfinite"]))
     else:
         mod = __import__(rec["module"], fromlist=["replay"])
         fl = mod.replay(rec, os.path.dirname(src))
@@ -245,7 +278,8 @@ def main(argv=None):
     out = run_tasks(names, src, tier)
     # verdicts must not depend on machine load: tasks with a solver 'unknown' are re-run with few processes and a larger budget
     shaky = [o["task"] for o in out if any(r["result"] == "unknown" for r in o["results"]) and not o["crash"] and o["task"] not in canaries]
-    if shaky and len(shaky) <= 6:          # many open obligations = a changed tree: the bounded suites decide, no point in retrying
+    n_open = sum(1 for o in out for r in o["results"] if r["result"] == "unknown" and o["task"] not in canaries)
+    if shaky and len(shaky) <= 6 and n_open <= 8:          # many open obligations = a changed tree: the bounded suites decide, no point in retrying
         jobs = [(n, src, 60000 if tier == "quick" else 180000, "retry") for n in shaky]
         with mp.get_context("fork").Pool(min(4, len(jobs))) as pool:
             redo = {o["task"]: o for o in pool.map(_worker, jobs, chunksize=1)}
@@ -262,9 +296,12 @@ def main(argv=None):
             bad_canaries.append(c)          # a false contract went through (or produced nothing): the engine proves too much
         # a canary left undecided because the tree is out of the engine's reach says nothing about the engine
     obligs, undecided, failing = [], [], []
+    only = cfg.get("only", {})        # callee-contract tasks of which only the clauses the property relies on count
     for n in cfg["decisive"]:
         o = by[n]
         for r in o["results"]:
+            if n in only and not any(k in r["name"] for k in only[n]):
+                continue
             obligs.append(r)
             if r["result"] != "proved":
                 failing.append(r)
